@@ -91,6 +91,7 @@ def main(argv=None):
         jobs = [(h, o) for h, o in jobs if a.only in h.name]
     for h, o in jobs:
         o.setdefault("seed", seed)
+        o.setdefault("smt2_samples", 1 if a.tier == "quick" else 3)
     # ---- oracle validation against a dense simulator (validates the trusted base, decides nothing) --------
     from oracle import validate
     ov_fails, ov_counts = validate.run(verbose=False)
@@ -144,6 +145,28 @@ def main(argv=None):
             except OSError:
                 pass
     print(f"[{prop}] concrete cross-check: {n_samples_ok}/{len(sample_paths)} random concrete inputs pass the harness on the unpatched code")
+    # ---- cross-solver re-check of sampled obligations (SMT-LIB2 -> z3 4.8.12 binary, cvc5 binary) ----------
+    smt_samples = []
+    for h, tot, err in results:
+        if tot is not None:
+            for n_, t_ in getattr(tot, "smt2_samples", []) or []:
+                smt_samples.append((h.name, n_, t_))
+    import random as _r
+    _r.Random(seed).shuffle(smt_samples)
+    smt_samples = smt_samples[: (12 if a.tier == "quick" else 48)]
+    os.makedirs(runner.REPLAY_DIR, exist_ok=True)
+    xs_stats, xs_bad = runner.cross_solver_check(smt_samples, runner.REPLAY_DIR, timeout=30 if a.tier == "quick" else 60)
+    print(f"[{prop}] cross-solver re-check of {len(smt_samples)} sampled obligations: {xs_stats}")
+    for b in xs_bad:
+        errors.append(("cross-solver", b))
+    # ---- CrossHair on pure-python leaf functions (second engine) -----------------------------------------
+    xh = {}
+    for pth in getattr(mod, "CROSSHAIR", []):
+        confirmed, other = runner.crosshair_check(pth)
+        xh[pth] = {"confirmed": confirmed, "not_confirmed": other}
+        print(f"[{prop}] crosshair {pth}: {confirmed} conditions confirmed over all paths, {len(other)} not confirmed")
+        if other or not confirmed:
+            inconclusive.append(("crosshair:" + pth, f"not confirmed: {other[:3]}"))
     # ---- replay every solver model on the unpatched code ---------------------------------------------
     paths = []
     for h, v in all_viol:
@@ -196,7 +219,9 @@ def main(argv=None):
         evidence.write(prop, a.tier, seed, mod, results, all_viol, wall, partial=bool(a.only),
                        n_viol=n_viol, n_known=n_known, problems=[*vacuous, *inconclusive, *errors],
                        extra={"oracle_validation_cases": ov_counts, "oracle_validation_failures": len(ov_fails),
-                              "concrete_crosscheck_samples": len(sample_paths), "concrete_crosscheck_passed": n_samples_ok})
+                              "concrete_crosscheck_samples": len(sample_paths), "concrete_crosscheck_passed": n_samples_ok,
+                              "cross_solver_recheck": {"obligations_sampled": len(smt_samples), "results": xs_stats, "disagreements": xs_bad},
+                              "crosshair": xh})
     status = 1 if n_viol else (2 if (errors or inconclusive or vacuous) else 0)
     tp = sum(t.paths for _, t, e in results if t)
     to = sum(t.obligations for _, t, e in results if t)
